@@ -16,7 +16,7 @@
 
   Only property theorems live here (C11_*); helper lemmas are in Lemmas/C11.lean.
 -/
-import GilVerif.Lemmas.C11Safe
+import GilVerif.Lemmas.C11Bmp
 
 namespace GilVerif.Props.C11
 open GilVerif.Model.C11 GilVerif.Lemmas.C11
@@ -311,6 +311,47 @@ theorem C11_safe_pnm (dev : Dev) (bytes : List UInt8) (st : Settings) (hconv : C
     safe (decode .pnm dev bytes st) = true := by
   unfold decode runRaw
   exact safe_of_tr_nf rfl (tr_pnm_run st hconv _) (nf_pnm_run st _)
+
+/-! ## BMP: memory safety and termination for ALL inputs; the one residual is stated separately
+
+  With the palette padded to 256 entries (d528079) no index, shift, overflow, assertion or allocation site of the BMP model
+  is reachable any more. What remains of the full statement is not a memory-safety matter: a pixel / RLE index beyond the
+  palette entries the header declares (and an unsupported bits-per-pixel value read through the converting reader) is
+  accepted instead of being reported; the model marks these reads (`inconsistent-data-accepted`), `C11_safe_bmp_false`
+  and `C11_bmp_palette_index_padded_witness` above are the machine-checked negative result. -/
+
+/-- the outcome is an image, a C++ exception, or an image the model marks as built from data inconsistent with the header
+    -- never a memory-safety / arithmetic / assertion violation, never a hang -/
+def memsafe : Outcome → Bool
+  | .ok _ => true
+  | .err _ => true
+  | .ub s _ => s == "inconsistent-data-accepted"
+  | .hang _ => false
+
+private theorem memsafe_of_tr_nf {Q : Img → Prop} {m : M Img} {s : St} (h1 : GoodT false Q s (m s)) (h2 : NFs m s) :
+    memsafe (match m s with
+      | .ok (img, s') => (match s'.taint with | none => Outcome.ok img | some why => Outcome.ub "inconsistent-data-accepted" why)
+      | .error (.err k) => Outcome.err k
+      | .error (.ub a w) => Outcome.ub a w
+      | .error (.hang w) => Outcome.hang w
+      | .error (.fuel w) => Outcome.hang ("fuel exhausted in " ++ w)) = true := by
+  cases hm : m s with
+  | error e =>
+    rw [hm] at h1
+    rcases h1 with ⟨k, hk⟩ | ⟨w, hw⟩
+    · subst hk; rfl
+    · subst hw; exact absurd hm (h2 w)
+  | ok p =>
+    obtain ⟨img, s'⟩ := p
+    cases ht : s'.taint <;> simp only [ht] <;> rfl
+
+/-- BMP (1/4/8-bit palette images, RLE4/RLE8 with all escapes, 15/16-bit with bit-field masks, 24/32-bit; 40-byte, OS/2 and
+    V4/V5 headers; bottom-up and top-down; sub-rectangles; all five entry points; file and stream devices): for EVERY byte
+    string no undefined behaviour and no hang. -/
+theorem C11_memsafe_bmp (dev : Dev) (bytes : List UInt8) (st : Settings) (hconv : ConvOk .bmp st) :
+    memsafe (decode .bmp dev bytes st) = true := by
+  unfold decode runRaw
+  exact memsafe_of_tr_nf (tr_bmp_run st hconv _) (nf_bmp_run st _)
 
 example : safe (decode .tga .sstream [0, 0, 10] { entry := .view, dst := .rgba8, x0 := 3, y0 := -1, dw := 7, dh := 0, vw := 2, vh := 2 }) = true :=
   C11_safe_targa _ _ _ (by intro h; cases h)
